@@ -400,8 +400,10 @@ func c11Run(_ *testing.T, c c11Case) (res vfResult) {
 
 	got := newC11Content()
 	nfrag := 0
+	var kept []RPC // the fragments as a caller that queues them sees them: looked at again after the iteration
 	for frag := range rpc.split(c.Limit) {
 		nfrag++
+		kept = append(kept, frag)
 		one := newC11Content()
 		one.add(&frag.RPC)
 		got.add(&frag.RPC)
@@ -419,6 +421,18 @@ func c11Run(_ *testing.T, c c11Case) (res vfResult) {
 		if nfrag > 100000 {
 			res.violate("C11/runaway", nfrag, "more than 100000 fragments")
 			break
+		}
+	}
+	// sendRPC queues the fragments; they must still say the same once the iteration is over
+	later := newC11Content()
+	for i := range kept {
+		later.add(&kept[i].RPC)
+	}
+	pre := len(res.Viols)
+	c11Compare(&res, want, later, nfrag)
+	if len(res.Viols) > pre {
+		for i := pre; i < len(res.Viols); i++ {
+			res.Viols[i].Key += "@after-iteration"
 		}
 	}
 	c11Compare(&res, want, got, nfrag)
